@@ -221,12 +221,12 @@ class C20Reports(Monitor):
             dg0 = raw_digest(tree)
             r0 = rng_fingerprint()
             def call():
-                # an accessor that raises (e.g. best_fitness_by_metaepoch on a local deme whose search made no
-                # iteration) is outside the statement; its "answer" is the exception type - counted, not judged
+                # a reporting / query accessor of a reachable tree answers; an exception is not an answer
                 try:
                     return _vd(fn())
                 except Exception as e:
                     self.cov(f"accessor_raised.{name}.{type(e).__name__}")
+                    self.v(f"a reporting / query accessor raised instead of answering: {name}: {type(e).__name__}", error=repr(e)[:160])
                     return "raised:" + type(e).__name__
 
             a = call()
